@@ -1052,7 +1052,8 @@ impl<R: RefCounter, PR: PathRefCounter, H: Header> Memory<R, PR, H> {
         } => {
           if remove_on_drop.load(Ordering::Acquire) {
             let _ = Box::from_raw(*buf);
-            core::ptr::drop_in_place(file);
+            // the file handle is owned by the backend and is closed when the `Memory` is dropped
+            // (right after unmounting): closing it here as well would close the descriptor twice.
             let _ = std::fs::remove_file(path.as_path());
             return;
           }
@@ -1062,14 +1063,14 @@ impl<R: RefCounter, PR: PathRefCounter, H: Header> Memory<R, PR, H> {
         }
         MemoryBackend::Mmap {
           path,
-          file,
           buf,
           remove_on_drop,
           ..
         } => {
           if remove_on_drop.load(Ordering::Acquire) {
             let _ = Box::from_raw(*buf);
-            core::ptr::drop_in_place(file);
+            // the file handle is owned by the backend and is closed when the `Memory` is dropped
+            // (right after unmounting): closing it here as well would close the descriptor twice.
             let _ = std::fs::remove_file(path.as_path());
             return;
           }
